@@ -28,6 +28,7 @@ from typing import IO, Optional, Dict, Any
 import logging
 
 from ..model import SERRecord, TraceDriver
+from .._utils import serialize_json_safe
 
 
 class JsonlTraceDriver(TraceDriver):
@@ -167,7 +168,12 @@ class JsonlTraceDriver(TraceDriver):
         if run_space_index is not None:
             record["run_space_index"] = run_space_index
         if run_space_context is not None:
-            record["run_space_context"] = run_space_context
+            # Caller-supplied values (YAML dates, numpy scalars, ...) must not
+            # make the trace writer fail: keep what JSON can carry, repr the rest.
+            record["run_space_context"] = {
+                str(key): serialize_json_safe(value)
+                for key, value in run_space_context.items()
+            }
         try:
             self._file.write(json.dumps(record, sort_keys=True) + "\n")
         except TypeError:
